@@ -2,8 +2,10 @@
    non-vacuity examples.  The proofs proper are in ProofsLib (arrays),
    ProofsAL (array list), ProofsSeq (stack, linked list, queue), ProofsPS
    (pointer slot), ProofsHeap (heap-level prev/next models of the linked
-   structures refine the functional ones), ProofsGen (leaf translator tie). *)
-From MV Require Export C11.Model C11.ModelHeap C11.ProofsLib C11.ProofsAL C11.ProofsSeq C11.ProofsPS C11.ProofsHeap C11.ProofsGen.
+   structures refine the functional ones), ProofsGen (leaf translator tie), ProofsGenHeap / ProofsGenArr (slicer tie: pointer splicing, cursors, index
+   ranges, growth). *)
+From MV Require Export C11.Model C11.ModelHeap C11.ProofsLib C11.ProofsAL C11.ProofsSeq C11.ProofsPS C11.ProofsHeap C11.ProofsGen
+                       C11.GenLib C11.ProofsGenHeap C11.ProofsGenArr.
 Local Open Scope Z_scope.
 
 (* ---------------------------------------------------------------------- *)
@@ -50,7 +52,7 @@ Qed.
 
 (* ring statement of DESIGN.md A.3 in every reachable state, for every
    requested capacity and every cursor preset (so also across the 2^32 wrap) *)
-Lemma ps_inv_reachable_lem : forall req a s0 ops, 0 <= req <= two31 -> ps_init req true = Some s0 ->
+Lemma ps_inv_reachable_lem : forall req a s0 ops, 0 <= req < two32 -> ps_init req true = Some s0 ->
   Forall op_ok ops ->
   exists s' rs, ps_run (ps_preset s0 a) ops = Some (s', rs) /\
     NoDup (seg s') /\ (forall sid, In sid (seg s') <-> slot_used (slots s') sid false) /\
@@ -64,7 +66,7 @@ Proof.
   exists s', rs. split; auto. now apply ps_inv_ring.
 Qed.
 
-Lemma ps_iter_insertion_order_lem : forall req a s0 ops, 0 <= req <= two31 -> ps_init req true = Some s0 ->
+Lemma ps_iter_insertion_order_lem : forall req a s0 ops, 0 <= req < two32 -> ps_init req true = Some s0 ->
   Forall op_ok ops ->
   exists s' rs, ps_run (ps_preset s0 a) ops = Some (s', rs) /\
     ps_iter s' = ProofsPS.ref_run [] ops rs /\ spec_run_ok (pcap s0) [] ops rs.
@@ -73,7 +75,7 @@ Proof.
   exists s', rs. auto.
 Qed.
 
-Lemma ps_all_capacities_lem : forall req a s0 ops, 0 <= req <= two31 -> ps_init req true = Some s0 ->
+Lemma ps_all_capacities_lem : forall req a s0 ops, 0 <= req < two32 -> ps_init req true = Some s0 ->
   Forall op_ok ops ->
   ps_run (ps_preset s0 a) ops <> None /\ ps_run s0 ops <> None /\
   zlen (slots s0) = pcap s0 /\ zlen (pp s0) = pcap s0 /\ req <= pcap s0 /\ 1 <= pcap s0.
@@ -88,7 +90,7 @@ Proof.
   pose proof (pow2_cap_pos _ Hc). destruct (req >? 0) eqn:G; lia.
 Qed.
 
-Lemma ps_reachable_inv : forall req a s0 ops s' rs, 0 <= req <= two31 -> ps_init req true = Some s0 ->
+Lemma ps_reachable_inv : forall req a s0 ops s' rs, 0 <= req < two32 -> ps_init req true = Some s0 ->
   Forall op_ok ops -> ps_run (ps_preset s0 a) ops = Some (s', rs) -> ps_inv s'.
 Proof.
   intros req a s0 ops s' rs Hr H F E. destruct (ps_reachable req a s0 ops Hr H F) as (s1 & rs1 & E1 & I & _).
@@ -102,6 +104,25 @@ Lemma ps_unrepaired_oob_witness :
             ps_run s [PIns 1; PIns 2; PIns 3; PIns 4] = None /\
             ps_run s [PGet 3] = None.
 Proof. eexists; split; [reflexivity|]. vm_compute. auto. Qed.
+
+(* The code before fixes/C11-pointer-slot-capacity-overflow.patch accepts a request above 2^31
+   (2^31 + 1 -> 2^32 truncated to capacity 0, empty arrays) and the first insert touches
+   memory outside pp_slots[]. *)
+Lemma ps_unchecked_overflow_witness :
+  exists s, ps_init_unchecked 2147483649 true = Some s /\ pcap s = 0 /\ ps_run s [PIns 1] = None.
+Proof. eexists; split; [reflexivity|]. vm_compute. auto. Qed.
+
+(* every requested capacity of type unsigned int: init succeeds (given memory) exactly up to 2^31 *)
+Lemma ps_init_every_request : forall req, 0 <= req < two32 ->
+  (req <= two31 -> exists s, ps_init req true = Some s /\ ps_inv s /\ req <= pcap s /\ 1 <= pcap s) /\
+  (two31 < req -> forall ok, ps_init req ok = None).
+Proof.
+  intros req Hr. split.
+  - intros Hle. destruct (ps_init_accepts req Hle) as [s E]. exists s. split; [exact E|].
+    destruct (ps_init_inv req s 0 Hr E) as [I _]. destruct (ps_init_shape req s Hr E) as (Hc & Hq & _).
+    pose proof (pow2_cap_pos _ Hc). split; [exact I|]. destruct (req >? 0) eqn:Eq; lia.
+  - intros Hgt ok. now apply ps_init_refuses.
+Qed.
 
 (* non-vacuity: requested 5 (rounded 8), cursors preset to 2^32-2; 9 inserts
    wrap alloc_index to 7; refusal when full, double removal, range error *)
@@ -156,4 +177,28 @@ Proof.
   exists hs'. split; auto. split; [exact W1|]. rewrite W1.
   split; [exact W2|]. split; [exact (hl_R_wf hs' _ I'' R')|]. split; [now apply hq_front_refines|].
   destruct (qu_history_refines c ok q ops E) as (Hr & _). exact Hr.
+Qed.
+
+(* ---------------------------------------------------------------------- *)
+(* slicer tie, pointer slot (ProofsGenHeap.gen_ps_insert_matches_model / gen_ps_remove_matches_model): the
+   hypothesis ps_inv is met by a non-trivial state *)
+
+(* a pointer slot asked for 3 entries (capacity 4), cursors started at UINT_MAX, one entry live *)
+Definition ex_ps0 : pslot :=
+  match ps_init 3 true with
+  | Some c => c
+  | None => {| slots := []; pp := []; pcap := 0; alloc_index := 0; free_index := 0; live := [] |}
+  end.
+Definition ex_ps1 : pslot :=
+  match ps_run (ps_preset ex_ps0 4294967295) [PIns 5] with Some (c, _) => c | None => ex_ps0 end.
+
+Example gen_ps_hyps_sat : ps_inv (hcore {| hcore := ex_ps1; hlinks := heap_init |}) /\
+  pcap ex_ps1 = 4 /\ live ex_ps1 = [3] /\ alloc_index ex_ps1 = 0 /\ free_index ex_ps1 = 4294967295.
+Proof.
+  split; [|vm_compute; auto]. cbn [hcore].
+  eapply (ps_reachable_inv 3 4294967295 ex_ps0 [PIns 5] ex_ps1).
+  - unfold two32. lia.
+  - reflexivity.
+  - repeat constructor.
+  - vm_compute. reflexivity.
 Qed.
